@@ -181,22 +181,28 @@ CIRCUIT_RULE = ("circuits constructed from a choice tape: scale (unit / decade /
                 "range the parameter check accepts. ")
 
 P("C01",
+  exh={"quick": 8, "thorough": 16},
   rc={"quick": (12, 10000, 100, 8), "thorough": (14, 100000, 100, 16)},
   fuzz={"quick": None, "thorough": (2, 300000, 4096)},
   rule=CIRCUIT_RULE + "Oracle: geometric legality predicate over placed rectangles (independent free-space sweep), unchanged "
        "placement after a throw, must-return on the trivially feasible class. non-trivial = >= 2 movable cells and one of "
        "{obstruction intersecting a row, split row, multi-row cell, utilisation >= 80%, a start position outside the area}; "
-       "distinct = hash of the circuit.",
+       "distinct = hash of the circuit. Exhaustive part (small scope): three tiny row configurations x {no obstruction, "
+       "1x1 obstruction} x every combination of 1..2 (3 thorough, from a reduced option set) movable cells of 4 sizes x 3 "
+       "polarities x 35 target positions x 2 ordering widths, each enumerated once.",
   assumptions=["rows are uniform-height and pairwise disjoint by construction; movable cells have placed height a positive multiple of the row height"])
 
 
 P("C11",
+  exh={"quick": 8, "thorough": 16},
   rc={"quick": (12, 8000, 100, 8), "thorough": (14, 100000, 100, 16)},
   rule=CIRCUIT_RULE + "Restricted to row-high movable cells and |v| < 2^20. The legal placement is either produced by "
        "legalize from the generated start or constructed by packing cells into free segments with tape-chosen gaps "
        "(gap 0 likely); legalize is then called again, possibly with other accepted ordering parameters, and every "
        "x/y/orientation must be unchanged. non-trivial = >= 3 movable cells with two touching in a row or one adjacent "
-       "to an obstruction; distinct = hash of the circuit.",
+       "to an obstruction; distinct = hash of the circuit. Exhaustive part (small scope): three tiny row configurations x {no "
+       "obstruction, 1x1 obstruction} x all combinations of 1..2 row-high cells (3 widths x 3 polarities x 35 targets) and all "
+       "3-cell (4 thorough) combinations from a reduced set, legalized twice with orderingWidth pairs from {0.2,0.9}.",
   assumptions=["designs with multi-row movable cells are outside the property"])
 
 
